@@ -224,6 +224,9 @@ func cmdCheck(eng *Engine, args []string) int {
 		}
 		for _, ob := range u.Script.obs {
 			if ob.Cover {
+				if os.Getenv("GOVC_SLOW") != "" && ob.TimeS > 2 {
+					fmt.Fprintf(os.Stderr, "SLOW %.1fs %s %s (%s)\n", ob.TimeS, ob.Result, ob.Name, ob.Solver)
+				}
 				if ob.Result == "unsat" {
 					// vacuity guard: precondition unsatisfiable or no return reachable
 					// (only a definite unsat is a vacuity failure; unknown on a quantified cover is inconclusive)
@@ -232,10 +235,16 @@ func cmdCheck(eng *Engine, args []string) int {
 				continue
 			}
 			if !hasProp(ob.Props, id) || ob.WeakOf != "" {
+				if os.Getenv("GOVC_SLOW") != "" && ob.TimeS > 2 {
+					fmt.Fprintf(os.Stderr, "SLOW(other) %.1fs %s %s (%s)\n", ob.TimeS, ob.Result, ob.Name, ob.Solver)
+				}
 				continue
 			}
 			nOb++
 			solverTime += ob.TimeS
+			if os.Getenv("GOVC_SLOW") != "" && ob.TimeS > 2 {
+				fmt.Fprintf(os.Stderr, "SLOW %.1fs %s %s (%s)\n", ob.TimeS, ob.Result, ob.Name, ob.Solver)
+			}
 			if ob.Result == "unsat" {
 				nOK++
 				byBackend[ob.Solver]++
